@@ -370,17 +370,25 @@ fn run_frame(w: &mut WorldModel, ctx: usize, cmds: &[Cmd], ro: bool, depth: usiz
 fn gen_script(rng: &mut Rng, n: usize, depth: usize, vctr: &mut u64, allow_sd: bool) -> Vec<Cmd> {
     let len = 1 + rng.below(if depth == 0 { 7 } else { 4 }) as usize;
     let mut v = vec![];
+    // an inner activation sometimes clears every (transient) slot: the "everything zero" state is
+    // persisted differently from a non-empty one
+    if depth > 0 && rng.chance(1, 8) {
+        let transient = rng.chance(2, 3);
+        for k in 0..3u8 {
+            v.push(if transient { Cmd::TStore(k, 0) } else { Cmd::SStore(k, 0) });
+        }
+    }
     for _ in 0..len {
         let k = rng.below(3) as u8;
         let c = match rng.weighted(&[22, 20, 8, 8, if depth < 5 { 22 } else { 0 }, if depth < 5 { 5 } else { 0 }, if depth < 5 { 7 } else { 0 }, 3, if allow_sd { 2 } else { 0 }, 4, 2, 4]) {
             0 => {
                 *vctr += 1;
-                Cmd::SStore(k, if rng.chance(1, 12) { 0 } else { *vctr })
+                Cmd::SStore(k, if rng.chance(1, 6) { 0 } else { *vctr })
             }
             1 => Cmd::SLoad(k),
             2 => {
                 *vctr += 1;
-                Cmd::TStore(k, *vctr)
+                Cmd::TStore(k, if rng.chance(1, 4) { 0 } else { *vctr })
             }
             3 => Cmd::TLoad(k),
             4 => Cmd::Call(rng.below(n as u64) as usize, if rng.chance(1, 4) { 1 + rng.below(3) as u8 } else { 0 }, gen_script(rng, n, depth + 1, vctr, allow_sd)),
@@ -588,7 +596,7 @@ fn script_text(cmds: &[Cmd]) -> String {
 pub fn run(cfg: &Cfg) -> i32 {
     let mut agg = Agg::new(cfg);
     let tier = cfg.tier;
-    agg.run_parallel("systems", tier.pick(1500, 120_000), Duration::from_secs(tier.pick(200, 1700)), |i, rng| {
+    agg.run_parallel("systems", tier.pick(8000, 400_000), Duration::from_secs(tier.pick(200, 1700)), |i, rng| {
         let mut o = system(i, rng, tier);
         o.violations.retain(|x| x.signature.starts_with("C19/"));
         o
